@@ -1,7 +1,310 @@
+(* C01, object layer: proofs about Obj.v.
+   Main result `run_slice`: for every well-formed canonical term t (any nesting, back-references, cycles, nested
+   scopes), the receiver machine started in any admissible state consumes exactly `slice n t` and ends in the state
+   `adv st ..`: the value `val_of n t` handed to the unslicer on top, the heap extended by `heap_of n t`, the
+   scope tables extended by `regs_of n t`, the counter advanced by `opens t`. *)
 From Coq Require Import ZArith List String Bool Lia.
 Import ListNotations.
 Require Import Verif.lib.PyLite Verif.gen.BananaGen Verif.gen.SlicersGen Verif.lib.Token Verif.lib.TokenProofs Verif.lib.Obj.
 Local Open Scope Z_scope.
 
-Lemma placeholder_self_list : unslice true 0 (slice 0 (OList [ORef 0])) = Some (heap_of 0 (OList [ORef 0]), [VPtr 0]).
-Proof. vm_compute. reflexivity. Qed.
+(* ------------------------------------------------------------------ induction over nested terms *)
+Definition is_cont (t : obj) : bool := match t with OCont _ _ => true | _ => false end.
+
+Fixpoint obj_ind' (P : obj -> Prop)
+         (Hleaf : forall t, is_cont t = false -> P t)
+         (Hcont : forall c xs, Forall P xs -> P (OCont c xs)) (t : obj) {struct t} : P t :=
+  match t as t0 return P t0 with
+  | OCont c xs =>
+    Hcont c xs ((fix go (l : list obj) : Forall P l :=
+                   match l with
+                   | [] => Forall_nil P
+                   | x :: r => Forall_cons x (obj_ind' P Hleaf Hcont x) (go r)
+                   end) xs)
+  | OInt z => Hleaf (OInt z) eq_refl
+  | OFloat b => Hleaf (OFloat b) eq_refl
+  | OBytes b => Hleaf (OBytes b) eq_refl
+  | OText u => Hleaf (OText u) eq_refl
+  | OBool b => Hleaf (OBool b) eq_refl
+  | ONone => Hleaf ONone eq_refl
+  | ODecimal s => Hleaf (ODecimal s) eq_refl
+  | ORef k => Hleaf (ORef k) eq_refl
+  end.
+
+(* ------------------------------------------------------------------ unfolding of the nested fixpoints *)
+Lemma slice_cont n c xs : slice n (OCont c xs) = TOpen n :: strs (opentype_of c) ++ slice_list (n + 1) xs ++ [TClose n].
+Proof. reflexivity. Qed.
+Lemma opens_cont c xs : opens (OCont c xs) = 1 + opens_list xs.
+Proof. reflexivity. Qed.
+Lemma heap_of_cont n c xs :
+  heap_of n (OCont c xs) = heap_list (n + 1) xs ++ [(n, {| n_kind := c; n_items := vals_list (n + 1) xs |})].
+Proof. reflexivity. Qed.
+Lemma regs_of_cont n c xs : regs_of n (OCont c xs) = (if registers c then [n] else []) ++ regs_list (n + 1) xs.
+Proof. reflexivity. Qed.
+Lemma wf_at_cont sc vis imm n c xs :
+  wf_at sc vis imm n (OCont c xs) =
+  let imm' := if is_imm_c c then n :: imm else imm in
+  if shape_ok c xs && negb (hazard_pos c false (vals_list (n + 1) xs) (fun k => mem k imm'))
+     && negb (match c with CTuple | CFrozen => existsb (ref_into imm') xs | _ => false end) then
+    let sc' := sc || is_scope c in
+    let vis1 := if sc' && tracked c then n :: vis else vis in
+    match wf_list sc' imm' vis1 (n + 1) xs with
+    | Some v => Some (if is_scope c then vis else v)
+    | None => None
+    end
+  else None.
+Proof. reflexivity. Qed.
+Lemma slice_list_cons n x r : slice_list n (x :: r) = slice n x ++ slice_list (n + opens x) r.
+Proof. reflexivity. Qed.
+Lemma wf_list_cons sc imm v m x r :
+  wf_list sc imm v m (x :: r) = match wf_at sc v imm m x with Some v' => wf_list sc imm v' (m + opens x) r | None => None end.
+Proof. reflexivity. Qed.
+
+(* ------------------------------------------------------------------ frames and states *)
+Definition set_items (f : frame) (l : list value) : frame :=
+  {| f_kind := f_kind f; f_open := f_open f; f_count := f_count f; f_items := l; f_refs := f_refs f |}.
+Definition push_many (vs : list value) (s : list frame) : list frame :=
+  match s with [] => [] | f :: r => set_items f (rev vs ++ f_items f) :: r end.
+
+(* the state after a complete object (or several) has gone by *)
+Definition adv (st : mstate) (vs : list value) (ids : list Z) (h : heap) (k : Z) : mstate :=
+  {| s_stack := push_many vs (reg_many ids (s_stack st)); s_inopen := None; s_counter := s_counter st + k; s_heap := s_heap st ++ h |}.
+
+Definition top_ok (s : list frame) : bool :=
+  match s with f :: _ => match f_kind f with KRoot _ | KC _ => true | _ => false end | [] => false end.
+
+Lemma reg1_nil f : reg1 [] f = f.
+Proof. unfold reg1. destruct (is_scope_frame f); [|reflexivity]. destruct f; cbn. rewrite app_nil_r. reflexivity. Qed.
+Lemma reg_many_nil s : reg_many [] s = s.
+Proof. unfold reg_many. induction s as [|f r IH]; cbn; [reflexivity|]. rewrite reg1_nil, IH. reflexivity. Qed.
+Lemma is_scope_reg1 a f : is_scope_frame (reg1 a f) = is_scope_frame f.
+Proof. unfold reg1. destruct (is_scope_frame f) eqn:E; [|exact E]. unfold is_scope_frame in *. cbn. exact E. Qed.
+Lemma reg1_app a b f : reg1 b (reg1 a f) = reg1 (a ++ b) f.
+Proof.
+  unfold reg1 at 1. rewrite is_scope_reg1. unfold reg1. destruct (is_scope_frame f); [|reflexivity].
+  cbn. rewrite app_assoc. reflexivity.
+Qed.
+Lemma reg_many_app a b s : reg_many b (reg_many a s) = reg_many (a ++ b) s.
+Proof. unfold reg_many. rewrite map_map. apply map_ext. intros f. apply reg1_app. Qed.
+Lemma reg1_set_items a f l : reg1 a (set_items f l) = set_items (reg1 a f) l.
+Proof. unfold reg1, set_items, is_scope_frame. cbn. destruct (match f_kind f with KRoot b => b | KC c => is_scope c | _ => false end); reflexivity. Qed.
+Lemma kind_reg1 a f : f_kind (reg1 a f) = f_kind f.
+Proof. unfold reg1. destruct (is_scope_frame f); reflexivity. Qed.
+Lemma count_reg1 a f : f_count (reg1 a f) = f_count f.
+Proof. unfold reg1. destruct (is_scope_frame f); reflexivity. Qed.
+Lemma items_reg1 a f : f_items (reg1 a f) = f_items f.
+Proof. unfold reg1. destruct (is_scope_frame f); reflexivity. Qed.
+Lemma open_reg1 a f : f_open (reg1 a f) = f_open f.
+Proof. unfold reg1. destruct (is_scope_frame f); reflexivity. Qed.
+
+Lemma push_reg_comm vs ids s : reg_many ids (push_many vs s) = push_many vs (reg_many ids s).
+Proof.
+  destruct s as [|f r]; [reflexivity|]. cbn [push_many reg_many map]. rewrite reg1_set_items, items_reg1. reflexivity.
+Qed.
+Lemma push_many_app a b s : push_many b (push_many a s) = push_many (a ++ b) s.
+Proof.
+  destruct s as [|f r]; [reflexivity|]. cbn [push_many]. unfold set_items. cbn. rewrite rev_app_distr, app_assoc. reflexivity.
+Qed.
+
+Lemma adv_adv st a i h k b j g l : adv (adv st a i h k) b j g l = adv st (a ++ b) (i ++ j) (h ++ g) (k + l).
+Proof.
+  unfold adv. cbn [s_stack s_counter s_heap]. f_equal.
+  - rewrite push_reg_comm, reg_many_app, push_many_app. reflexivity.
+  - lia.
+  - rewrite app_assoc. reflexivity.
+Qed.
+
+Lemma run_app a b st : run (a ++ b) st = match run a st with Some st' => run b st' | None => None end.
+Proof. revert st. induction a as [|t a IH]; intros st; cbn [app run]; [reflexivity|]. destruct (step st t); [apply IH|reflexivity]. Qed.
+
+(* --- what stays the same under adv *)
+Lemma top_ok_adv st vs ids h k : top_ok (s_stack (adv st vs ids h k)) = top_ok (s_stack st).
+Proof. unfold adv. cbn [s_stack]. destruct (s_stack st) as [|f r]; [reflexivity|]. cbn. rewrite kind_reg1. reflexivity. Qed.
+
+Lemma has_scope_push vs s : has_scope (push_many vs s) = has_scope s.
+Proof. destruct s as [|f r]; reflexivity. Qed.
+Lemma has_scope_reg ids s : has_scope (reg_many ids s) = has_scope s.
+Proof. unfold has_scope, reg_many. induction s as [|f r IH]; [reflexivity|]. cbn. rewrite is_scope_reg1, IH. reflexivity. Qed.
+
+Lemma mem_app k a b : mem k (a ++ b) = mem k a || mem k b.
+Proof. induction a as [|x a IH]; cbn; [reflexivity|]. rewrite IH, orb_assoc. reflexivity. Qed.
+
+Lemma lookup_push k vs s : lookup k (push_many vs s) = lookup k s.
+Proof. destruct s as [|f r]; reflexivity. Qed.
+Lemma lookup_reg k ids s : lookup k (reg_many ids s) = lookup k s || (has_scope s && mem k ids).
+Proof.
+  unfold lookup, has_scope, reg_many. induction s as [|f r IH]; [reflexivity|]. cbn [map existsb].
+  rewrite IH, is_scope_reg1. unfold reg1. destruct (is_scope_frame f) eqn:E; cbn [f_refs andb orb].
+  - rewrite mem_app. destruct (mem k (f_refs f)), (mem k ids), (existsb _ r), (existsb is_scope_frame r); reflexivity.
+  - reflexivity.
+Qed.
+Lemma open_imm_push vs s k : open_imm (push_many vs s) k = open_imm s k.
+Proof. destruct s as [|f r]; reflexivity. Qed.
+Lemma open_imm_reg ids s k : open_imm (reg_many ids s) k = open_imm s k.
+Proof. unfold open_imm, reg_many. induction s as [|f r IH]; [reflexivity|]. cbn. rewrite kind_reg1, count_reg1, IH. reflexivity. Qed.
+
+(* ------------------------------------------------------------------ admissible states *)
+Record okst (sc : bool) (vis imm : list Z) (n : Z) (st : mstate) : Prop := {
+  ok_in : s_inopen st = None;
+  ok_cnt : s_counter st = n;
+  ok_top : top_ok (s_stack st) = true;
+  ok_sc : sc = true -> has_scope (s_stack st) = true;
+  ok_vis : forall k, mem k vis = true -> lookup k (s_stack st) = true;
+  ok_imm : forall k, open_imm (s_stack st) k = true -> mem k imm = true }.
+
+Lemma okst_adv sc vis vis' imm n st vs ids h k :
+  okst sc vis imm n st ->
+  (forall j, mem j vis' = true -> mem j vis = true \/ (sc = true /\ mem j ids = true)) ->
+  okst sc vis' imm (n + k) (adv st vs ids h k).
+Proof.
+  intros [Hi Hc Ht Hs Hv Hm] Hsub. split.
+  - reflexivity.
+  - unfold adv; cbn [s_counter]. lia.
+  - rewrite top_ok_adv. exact Ht.
+  - intros E. unfold adv; cbn [s_stack]. rewrite has_scope_push, has_scope_reg. auto.
+  - intros j Hj. unfold adv; cbn [s_stack]. rewrite lookup_push, lookup_reg. destruct (Hsub j Hj) as [H|[H1 H2]].
+    + rewrite (Hv j H). reflexivity.
+    + rewrite (Hs H1), H2. apply orb_true_r.
+  - intros j. unfold adv; cbn [s_stack]. rewrite open_imm_push, open_imm_reg. apply Hm.
+Qed.
+
+(* ------------------------------------------------------------------ single steps *)
+Lemma adv_one st v k :
+  adv st [v] [] [] k =
+  {| s_stack := match s_stack st with f :: r => push_item v f :: r | [] => [] end;
+     s_inopen := None; s_counter := s_counter st + k; s_heap := s_heap st |}.
+Proof.
+  unfold adv. rewrite reg_many_nil, app_nil_r. destruct (s_stack st) as [|f r]; reflexivity.
+Qed.
+
+Lemma recv_top s v : top_ok s = true -> recv s v = Some (match s with f :: r => push_item v f :: r | [] => [] end).
+Proof. destruct s as [|f r]; cbn; [discriminate|]. destruct (f_kind f); try discriminate; reflexivity. Qed.
+
+Definition atom_tok (t : obj) : bool := match t with OInt _ | OFloat _ | OBytes _ => true | _ => false end.
+
+Lemma run_atom t n st : atom_tok t = true -> s_inopen st = None -> top_ok (s_stack st) = true ->
+  run (slice n t) st = Some (adv st [val_of n t] [] [] 0).
+Proof.
+  intros A Hi Ht. rewrite adv_one. destruct t; try discriminate; cbn [slice run val_of]; unfold step; rewrite Hi;
+    rewrite (recv_top _ _ Ht); rewrite Z.add_0_r; reflexivity.
+Qed.
+
+Lemma step_open st n : s_inopen st = None ->
+  step st (TOpen n) = Some {| s_stack := s_stack st; s_inopen := Some (n, s_counter st, []); s_counter := s_counter st + 1; s_heap := s_heap st |}.
+Proof. intros H. unfold step. rewrite H. reflexivity. Qed.
+
+Definition newframe (k : kind) (hdr cnt : Z) : frame := {| f_kind := k; f_open := hdr; f_count := cnt; f_items := []; f_refs := [] |}.
+
+Lemma step_index st hdr cnt idx bs k :
+  s_inopen st = Some (hdr, cnt, idx) ->
+  (forall top, open_kind top (idx ++ [bs]) = Some (Some k)) ->
+  step st (TString bs) =
+  Some {| s_stack := if kind_registers k then reg_many [cnt] (newframe k hdr cnt :: s_stack st) else newframe k hdr cnt :: s_stack st;
+          s_inopen := None; s_counter := s_counter st; s_heap := s_heap st |}.
+Proof. intros H O. unfold step. rewrite H, O. reflexivity. Qed.
+
+Lemma step_index_more st hdr cnt idx bs :
+  s_inopen st = Some (hdr, cnt, idx) ->
+  (forall top, open_kind top (idx ++ [bs]) = Some None) ->
+  step st (TString bs) = Some {| s_stack := s_stack st; s_inopen := Some (hdr, cnt, idx ++ [bs]); s_counter := s_counter st; s_heap := s_heap st |}.
+Proof. intros H O. unfold step. rewrite H, O. reflexivity. Qed.
+
+(* the opentype strings the slicers send select the matching unslicer (generated constants: by computation) *)
+Lemma open_kind_leaf top :
+  open_kind top ot_unicode = Some (Some KText) /\ open_kind top ot_boolean = Some (Some KBool) /\
+  open_kind top ot_none = Some (Some KNone) /\ open_kind top ot_decimal = Some (Some KDecimal) /\
+  open_kind top ot_reference = Some (Some KRef).
+Proof. destruct top; vm_compute; repeat split; reflexivity. Qed.
+
+Lemma open_kind_cont top c : shape_ok c [] = true -> (forall nm, c <> CCopy nm) -> open_kind top (opentype_of c) = Some (Some (KC c)).
+Proof.
+  intros S NC. destruct c as [| | | | |nm|nm]; try (destruct top; vm_compute; reflexivity).
+  cbn [shape_ok] in S. unfold scoped_opentypes in S. cbn [existsb] in S.
+  repeat (apply orb_true_iff in S; destruct S as [S|S]); try discriminate;
+    apply list_eqb_eq in S; subst nm; destruct top; vm_compute; reflexivity.
+Qed.
+
+Lemma open_kind_copy1 top : open_kind top [ot_copyable_head] = Some None.
+Proof. destruct top; vm_compute; reflexivity. Qed.
+Lemma open_kind_copy2 top nm : open_kind top [ot_copyable_head; nm] = Some (Some (KC (CCopy nm))).
+Proof. destruct top; vm_compute; reflexivity. Qed.
+
+Lemma shape_ok_nil c xs : shape_ok c xs = true -> shape_ok c [] = true.
+Proof. destruct c; cbn; auto. Qed.
+
+Lemma tracked_registers c : tracked c = true -> registers c = true.
+Proof. destruct c; vm_compute; intros H; try exact H; try reflexivity; discriminate. Qed.
+Lemma registers_not_scope c : registers c = true -> is_scope c = false.
+Proof. destruct c; cbn; auto; discriminate. Qed.
+
+(* OPEN n followed by the opentype strings of container kind c: the new unslicer is on the stack, registered *)
+Lemma run_open c xs st n : shape_ok c xs = true -> s_inopen st = None -> s_counter st = n ->
+  run (TOpen n :: strs (opentype_of c)) st =
+  Some {| s_stack := newframe (KC c) n n :: (if registers c then reg_many [n] (s_stack st) else s_stack st);
+          s_inopen := None; s_counter := n + 1; s_heap := s_heap st |}.
+Proof.
+  intros S Hi Hc. cbn [run]. rewrite (step_open _ _ Hi), Hc.
+  assert (R : forall s, (if kind_registers (KC c) then reg_many [n] (newframe (KC c) n n :: s) else newframe (KC c) n n :: s)
+                        = newframe (KC c) n n :: (if registers c then reg_many [n] s else s)).
+  { intros s. cbn [kind_registers]. destruct (registers c) eqn:R; [|reflexivity].
+    cbn [reg_many map]. unfold reg1 at 1. unfold is_scope_frame. cbn [newframe f_kind]. rewrite (registers_not_scope _ R). reflexivity. }
+  destruct c as [| | | | |nm|nm].
+  1-5,7: (cbn [opentype_of]; match goal with |- context [strs ?o] => change (strs o) with [TString (hd [] o)] end;
+          cbn [run]; erewrite step_index;
+          [cbn [s_stack s_counter s_heap]; rewrite R; reflexivity | reflexivity |
+           intros top; cbn [app hd]; apply (open_kind_cont top _ (shape_ok_nil _ _ S)); intros nm'; discriminate]).
+  cbn [opentype_of strs map run].
+  erewrite step_index_more; [|reflexivity|intros top; apply open_kind_copy1].
+  erewrite step_index; [|reflexivity|intros top; apply open_kind_copy2].
+  cbn [s_stack s_counter s_heap]. rewrite R. reflexivity.
+Qed.
+
+(* ------------------------------------------------------------------ boxed leaves: OPEN opentype body CLOSE *)
+Definition boxed (t : obj) : bool := match t with OText _ | OBool _ | ONone | ODecimal _ => true | _ => false end.
+
+Lemma bool_toks : (bool_true_tok =? 0) = false /\ (bool_false_tok =? 0) = true.
+Proof. vm_compute. split; reflexivity. Qed.
+
+Lemma run_boxed t n st : boxed t = true -> s_inopen st = None -> s_counter st = n -> top_ok (s_stack st) = true ->
+  run (slice n t) st = Some (adv st [val_of n t] [] [] 1).
+Proof.
+  intros B Hi Hc Ht. rewrite adv_one. destruct (open_kind_leaf true) as (_ & _ & _ & _ & _).
+  destruct t; try discriminate; cbn [slice val_of].
+  - (* text *)
+    change (strs ot_unicode) with [TString (hd [] ot_unicode)]. cbn [app run]. rewrite (step_open _ _ Hi).
+    erewrite step_index; [|reflexivity|intros top; apply (open_kind_leaf top)].
+    cbn [kind_registers]. unfold step at 1. cbn [s_inopen s_stack recv newframe f_kind f_items].
+    unfold step at 1. cbn [s_inopen s_stack push_item f_open f_kind f_count f_items f_refs]. rewrite Z.eqb_refl.
+    cbn [frame_hazard f_kind seal rev app f_items]. rewrite (recv_top _ _ Ht). cbn [s_counter s_heap]. rewrite Hc. reflexivity.
+  - (* bool *)
+    change (strs ot_boolean) with [TString (hd [] ot_boolean)]. cbn [app run]. rewrite (step_open _ _ Hi).
+    erewrite step_index; [|reflexivity|intros top; apply (open_kind_leaf top)].
+    cbn [kind_registers]. unfold step at 1. cbn [s_inopen s_stack recv newframe f_kind f_items].
+    unfold step at 1. cbn [s_inopen s_stack push_item f_open f_kind f_count f_items f_refs]. rewrite Z.eqb_refl.
+    cbn [frame_hazard f_kind seal rev app f_items]. rewrite (recv_top _ _ Ht). cbn [s_counter s_heap]. rewrite Hc. reflexivity.
+  - (* none *)
+    change (strs ot_none) with [TString (hd [] ot_none)]. cbn [app run]. rewrite (step_open _ _ Hi).
+    erewrite step_index; [|reflexivity|intros top; apply (open_kind_leaf top)].
+    cbn [kind_registers]. unfold step at 1. cbn [s_inopen s_stack newframe f_open f_kind f_count f_items f_refs]. rewrite Z.eqb_refl.
+    cbn [frame_hazard f_kind seal rev app f_items]. rewrite (recv_top _ _ Ht). cbn [s_counter s_heap]. rewrite Hc. reflexivity.
+  - (* decimal *)
+    change (strs ot_decimal) with [TString (hd [] ot_decimal)]. cbn [app run]. rewrite (step_open _ _ Hi).
+    erewrite step_index; [|reflexivity|intros top; apply (open_kind_leaf top)].
+    cbn [kind_registers]. unfold step at 1. cbn [s_inopen s_stack recv newframe f_kind f_items].
+    unfold step at 1. cbn [s_inopen s_stack push_item f_open f_kind f_count f_items f_refs]. rewrite Z.eqb_refl.
+    cbn [frame_hazard f_kind seal rev app f_items]. rewrite (recv_top _ _ Ht). cbn [s_counter s_heap]. rewrite Hc. reflexivity.
+Qed.
+
+Lemma run_ref k n st : s_inopen st = None -> s_counter st = n -> top_ok (s_stack st) = true -> lookup k (s_stack st) = true ->
+  run (slice n (ORef k)) st = Some (adv st [VPtr k] [] [] 1).
+Proof.
+  intros Hi Hc Ht Hl. rewrite adv_one. cbn [slice].
+  change (strs ot_reference) with [TString (hd [] ot_reference)]. cbn [app run]. rewrite (step_open _ _ Hi).
+  erewrite step_index; [|reflexivity|intros top; apply (open_kind_leaf top)].
+  cbn [kind_registers]. unfold step at 1. cbn [s_inopen s_stack recv newframe f_kind f_items].
+  assert (L : lookup k ({| f_kind := KRef; f_open := n; f_count := s_counter st; f_items := []; f_refs := [] |} :: s_stack st) = true).
+  { unfold lookup in *. cbn [existsb is_scope_frame f_kind andb orb]. exact Hl. }
+  rewrite L.
+  unfold step at 1. cbn [s_inopen s_stack push_item f_open f_kind f_count f_items f_refs]. rewrite Z.eqb_refl.
+  cbn [frame_hazard f_kind seal rev app f_items]. rewrite (recv_top _ _ Ht). cbn [s_counter s_heap]. rewrite Hc. reflexivity.
+Qed.
